@@ -577,3 +577,36 @@ def all_valid_small(nmax, rng, kinds_full=True):
                         desc["dests"].append({"id": f"D{i}", "name": f"D{i}", "node": f"n{v}", "kind": kind})
                 assert is_valid_desc(desc), desc
                 yield desc
+
+
+def clash_names(desc, rng):
+    """Same description with element NAMES chosen so that different (element, variable) pairs
+    spell the same '<variable>_<element name>': a mainstream origin and a speed-limited link with
+    one name (both carry v_ctrl), a queued origin and a congested destination with one name (both
+    carry d), and a plain link called 'ctrl_<X>' next to a speed-limited link called '<X>' (state v
+    of the first vs action v_ctrl of the second).  Element uniqueness is by object, so the network
+    stays valid.  Returns (desc', number of clashes created)."""
+    import copy
+
+    d = copy.deepcopy(desc)
+    n = 0
+    vsl = [l for l in d["links"] if l.get("vsl") is not None]
+    plain = [l for l in d["links"] if l.get("vsl") is None]
+    mains = [o for o in d["origins"] if o["kind"] == "main"]
+    queued = [o for o in d["origins"] if o["kind"] in ("ramp", "simple")]
+    congs = [x for x in d["dests"] if x["kind"] == "cong"]
+    if mains and vsl:
+        mains[0]["name"] = vsl[0]["name"] = "A13"
+        n += 1
+    if queued and congs:
+        queued[0]["name"] = congs[0]["name"] = "E"
+        n += 1
+    if len(vsl) >= 2 and plain:
+        vsl[1]["name"] = "S"
+        plain[0]["name"] = "ctrl_S"
+        n += 1
+    elif vsl and plain and not mains:
+        vsl[0]["name"] = "S"
+        plain[0]["name"] = "ctrl_S"
+        n += 1
+    return d, n
